@@ -810,6 +810,7 @@ class BzrFastExporter:
         must_be_renamed = {}
         old_to_new = {}
         deleted_paths = {change.path[0] for change in deletes}
+        all_deleted_paths = frozenset(deleted_paths)
         for change in renames:
             emit = change.kind[1] != "directory" or not self.plain_format
             if change.path[1] in deleted_paths:
@@ -835,16 +836,20 @@ class BzrFastExporter:
                 modifies.append(change)
 
             # Renaming a directory implies all children must be renamed.
-            # Note: changes_from() doesn't handle this
-            if change.kind == ("directory", "directory"):
-                for p, e in tree_old.iter_entries_by_dir(
-                    specific_files=[change.path[0]]
-                ):
-                    if e.kind == "directory" and self.plain_format:
+            # Note: changes_from() doesn't handle this.  When the rename of
+            # the directory itself is emitted it carries the children along;
+            # otherwise (plain format, directories are implicit) every file
+            # below it that stays in the tree has to be renamed explicitly.
+            if change.kind == ("directory", "directory") and not emit:
+                prefix = change.path[0] + "/"
+                for p, e in tree_old.iter_entries_by_dir():
+                    if not p.startswith(prefix) or e.kind == "directory":
                         continue
-                    old_child_path = osutils.pathjoin(change.path[0], p)
-                    new_child_path = osutils.pathjoin(change.path[1], p)
-                    must_be_renamed[old_child_path] = new_child_path
+                    if p in all_deleted_paths:
+                        continue
+                    must_be_renamed[p] = osutils.pathjoin(
+                        change.path[1], p[len(prefix) :]
+                    )
 
         # Add children not already renamed
         if must_be_renamed:
